@@ -65,7 +65,7 @@ JOBS['C11'] = [
 
 # ---------------------------------------------------------------- C04
 META['C04'] = {
-    'bounds': {'quick': 'line-buffer interface: all histories of K=3 operations from {edit, compound command of 2 edits, undo, redo}, every edit a symbolic range and a symbolic text of <=3 bytes over {a, newline}; ex level: two commands from a menu on a 4-line symbolic buffer, then u u redo',
+    'bounds': {'quick': 'line-buffer interface: all histories of K=3 operations from {edit, compound command of 2 edits, undo, redo} (a second job adds: history cleared by a load, saved, a command that edits nothing), every edit a symbolic range and a symbolic text of <=3 bytes over {a, newline}; ex level: two commands from a menu on a 4-line symbolic buffer, then u u redo',
                'thorough': 'K=4 at the interface; ex level: all ordered pairs of the command menu'},
     'outside': 'histories longer than K at the interface; filter commands (need a child process); edit texts longer than 3 bytes',
     'assumptions': ['a command boundary is a call of lbuf_modified(), as ex_command() and the vi loop make it'],
@@ -80,17 +80,19 @@ JOBS['C04'] = [
      'defs': {'quick': {'PAIRS_DIAGONAL': 1}, 'thorough': {}},
      'expect_reach': ['end', 'B-changed', 'both-changed'], 'timeout': {'quick': 280, 'thorough': 1700}},
     {'name': 'lbuf_history_deep', 'harness': 'c04_hist.c', 'units': ['lbuf', 'sbuf', 'uc'],
-     'defs': {'quick': {'K': 3, 'SMALL': 1, 'NOPS': 6}, 'thorough': {'K': 4, 'SMALL': 1, 'NOPS': 6}},
-     'expect_reach': ['end', 'edit', 'undo', 'redo', 'undo-at-start', 'redo-at-end', 'history-cleared'], 'timeout': {'quick': 280, 'thorough': 1700}},
+     'defs': {'quick': {'K': 3, 'SMALL': 1, 'NOPS': 7}, 'thorough': {'K': 4, 'SMALL': 1, 'NOPS': 7}},
+     'expect_reach': ['end', 'edit', 'undo', 'redo', 'undo-at-start', 'redo-at-end', 'history-cleared', 'noop'], 'timeout': {'quick': 280, 'thorough': 1700}},
 ]
 
 # ---------------------------------------------------------------- C01
 META['C01'] = {
-    'bounds': {'quick': 'all files of <=4 bytes over 1..255 x all read chunkings x all ranges x all previous target lengths 0..7/absent; up to 2 lines with lengths from {0,1,1022..1026,2047..2049,4093..4099} (symbolic first/last/chunk-edge bytes), with/without final newline, target absent/shorter/longer; line counts {510..513,1023..1025}; sbuf growth step for all sizes < 2^30 (CBMC)',
+    'bounds': {'quick': 'all files of <=4 bytes over 1..255 x all read chunkings x all ranges x all previous target lengths 0..7/absent x first write() of the target complete or cut short (1 byte, half, all but one, 1 byte twice in a row); up to 2 lines with lengths from {0,1,1022..1026,2047..2049,4093..4099} (symbolic first/last/chunk-edge bytes), with/without final newline, target absent/shorter/longer; line counts {510..513,1023..1025}; sbuf growth step for all sizes < 2^30 (CBMC); the files written by :xa / :xa! / autowrite over two buffers of different lengths',
                'thorough': 'files of <=6 bytes; 3 boundary-length lines with symbolic ranges'},
     'outside': 'files >= 2^30 bytes; line lengths between the windows (the code has no constant there); NUL bytes (excluded by the property); ftruncate/stat failure',
     'assumptions': ['read() may return any count from 1 to the request (symbolic chunk size, constant per run)'],
 }
+_write_all_c01 = {'name': 'write_all_buffers', 'harness': 'c03_xa.c', 'units': 'ALL', 'defs': {},
+                  'expect_reach': ['end', 'written', 'left'], 'timeout': 280}
 JOBS['C01'] = [
     {'name': 'roundtrip_bytes', 'harness': 'c01_rt.c', 'units': ['lbuf', 'sbuf', 'uc'],
      'defs': {'quick': {'MODE': 0, 'N': 4}, 'thorough': {'MODE': 0, 'N': 6}}, 'expect_reach': ['end', 'whole']},
@@ -99,13 +101,14 @@ JOBS['C01'] = [
      'timeout': {'quick': 280, 'thorough': 1700}},
     {'name': 'line_table_growth', 'harness': 'c01_rt.c', 'units': ['lbuf', 'sbuf', 'uc'],
      'defs': {'MODE': 2}, 'expect_reach': ['end', 'whole'], 'max_steps': 200000000},
+    _write_all_c01,
 ]
 
 # ---------------------------------------------------------------- C03
 META['C03'] = {
-    'bounds': {'quick': 'commands {w, w!, w o, w! o, wq, x, 1,2w! o, w p} x other file exists or not x edited file newer on disk or not x buffer shapes {empty file+1 line, 2, 4 short lines, three 3000-byte lines (three batches)} x optional earlier write to another path x one fault at every position 0..7 of the open/write/close sequence x {error return, short count of 1 byte / half / all but one}; all two-fault schedules for {w, wq} on the one-line and three-batch shapes',
+    'bounds': {'quick': 'commands {w, w!, w o, w! o, wq, x, 1,2w! o, w p} x other file exists or not x edited file newer on disk or not x buffer shapes {empty file+1 line, 2, 4 short lines, three 3000-byte lines (three batches)} x optional earlier write to another path x one fault at every position 0..7 of the open/write/close sequence x {error return with errno EIO or EINTR, short count of 1 byte / half / all but one}; all two-fault schedules for {w, wq} on the one-line and three-batch shapes; :xa, :xa! and :q with autowrite over two buffers (second file shorter / equal / longer, each modified or not, one of the files rewritten by somebody else or not)',
                'thorough': 'adds the two-5000-byte-line shape (direct writes) and all two-fault schedules'},
-    'outside': 'ftruncate and stat failures (not in the property); write() returning 0 for a non-empty request; allocation failure; :xa over several buffers (thorough job only)',
+    'outside': 'ftruncate and stat failures (not in the property); write() returning 0 for a non-empty request; allocation failure; faults during :xa',
     'assumptions': ['a failed close() still releases the descriptor', 'the partial file left by a failed write is newer than the recorded mtime, so the retry uses w!'],
     'level': 'Fault enumeration decided symbolically: every position of the system-call sequence of a write x every fault kind, on the real ec_write/lbuf_save/lbuf_wr/write_fully code, with the overwrite guards for all combinations of target existence, identity and modification time.',
 }
@@ -114,8 +117,10 @@ JOBS['C03'] = [
      'defs': {'quick': {'NF': 1, 'NSHAPES': 5}, 'thorough': {'NF': 2, 'NSHAPES': 5}},
      'expect_reach': ['end', 'foreign-guard', 'newer-guard', 'fault', 'shorts-only', 'clean'], 'timeout': {'quick': 280, 'thorough': 1700}},
     {'name': 'two_faults', 'harness': 'c03_wr.c', 'units': 'ALL', 'tiers': ['quick'],
-     'defs': {'NF': 2, 'NSHAPES': 4, 'CMDMASK': '0x11', 'SHAPEMASK': '0xa'},
+     'defs': {'NF': 2, 'NSHAPES': 4, 'CMDMASK': '0x11', 'SHAPEMASK': '0xa', 'KINDS': 5},
      'expect_reach': ['end', 'fault', 'shorts-only'], 'timeout': 280},
+    {'name': 'write_all', 'harness': 'c03_xa.c', 'units': 'ALL', 'defs': {},
+     'expect_reach': ['end', 'newer-kept', 'written', 'left', 'stayed'], 'timeout': 280},
 ]
 
 # ---------------------------------------------------------------- C02 / C20
